@@ -68,6 +68,29 @@ def _run(ctx, replay):
             if len(pubs) > 1:
                 for kind in ("stream", "external"):
                     scen.append({"id": "eager-%s-%d-%d" % (kind, seed, i), "steps": pubs, "eager": kind})
+        # race sessions: one scripted step runs while the stream is parked at the k-th database
+        # boundary of its reaction to the step before (streamcheck/race.go); k walks the second step
+        # across the stream's own processing (refresh read, fetch transaction, ...)
+        shapes = [
+            # flow control full, a publish triggers the stream's refresh pass, an external ack lands inside it
+            ("pubext", [{"op": "Open", "fcM": 1, "fcB": 1000}, {"op": "Publish", "sizes": [10, 10]}, {"op": "Publish", "sizes": [10]}, {"op": "ExtAck", "j": 1}], 2),
+            # a stream ack frees a slot, an external ack lands inside the stream's fetch
+            ("ackext", [{"op": "Open", "fcM": 2, "fcB": 1000}, {"op": "Publish", "sizes": [10, 10, 10, 10]}, {"op": "Ack", "j": 1}, {"op": "ExtAck", "j": 1}], 2),
+            # two external acks back to back
+            ("extext", [{"op": "Open", "fcM": 2, "fcB": 1000}, {"op": "Publish", "sizes": [10, 10, 10, 10]}, {"op": "ExtAck", "j": 1}, {"op": "ExtAck", "j": 1}], 2),
+            # a nack on the stream, then an external ack of the other outstanding message
+            ("nackext", [{"op": "Open", "fcM": 2, "fcB": 1000}, {"op": "Publish", "sizes": [10, 10, 10]}, {"op": "Nack", "j": 1}, {"op": "ExtAck", "j": 1}], 2),
+        ]
+        for name, steps, a in shapes:
+            for k in range(1, 7 if tier == "quick" else 13):
+                scen.append({"id": "race-%s-%d" % (name, k), "steps": steps, "raceAt": [a, k]})
+        if tier == "thorough":
+            # and every consecutive pair of actions of the generated message-count scripts
+            for i, h in enumerate(hc[:60]):
+                for a in range(1, len(h) - 1):
+                    if h[a]["op"] in ("Publish", "Ack", "Nack", "ExtAck") and h[a + 1]["op"] in ("Publish", "Ack", "Nack", "ExtAck"):
+                        for k in (1, 2, 3, 4):
+                            scen.append({"id": "racegen-%d-%d-%d-%d" % (seed, i, a, k), "steps": h, "raceAt": [a, k]})
     sp = os.path.join(ctx.scratch, "scen.ndjson")
     vlib.write_scenarios(sp, scen)
     tp = os.path.join(ctx.scratch, "trace.ndjson")
